@@ -98,6 +98,116 @@ func runC16(c *core.Ctx) {
 		o.Shape(strings.Contains(src, "b-a>maxDegree"), "the fan-out bound is not checked before merging")
 		o.Require(c.Prog.ConstInt(pk, "maxDegree") >= 2, "maxDegree")
 	})
+	c.Check("C16-R1", pk+".(*Writer).wrapIfLeaf/parent", "a page that is wrapped into a /Pages node of its own gets that node as its /Parent on every path (pending page or finished dictionary)", func(o *core.Ob) {
+		fn := c.Prog.Func(pk, "(*Writer).wrapIfLeaf")
+		g := fn.Graph()
+		info := fn.Info()
+		// the wrapper's reference: a local defined by Alloc() (one per branch that builds a wrapper)
+		type alloc struct {
+			obj types.Object
+			def *core.V
+		}
+		var allocs []alloc
+		for _, v := range g.Vs {
+			as, ok := v.AST.(*ast.AssignStmt)
+			if !ok || len(as.Lhs) != 1 || len(as.Rhs) != 1 {
+				continue
+			}
+			if call, isCall := ast.Unparen(as.Rhs[0]).(*ast.CallExpr); isCall && strings.HasSuffix(core.CalleeKey(info, call), ".Alloc") {
+				if obj := core.ObjOf(info, as.Lhs[0]); obj != nil {
+					allocs = append(allocs, alloc{obj, v})
+				}
+			}
+		}
+		if len(allocs) == 0 {
+			o.Unrec("no reference allocated for the wrapper node")
+			return
+		}
+		n := 0
+		for _, al := range allocs {
+			refObj, refDef := al.obj, al.def
+			o.At(fn.Site(refDef.AST, "wrapper reference"))
+			isRef := func(at *core.V, e ast.Expr) bool {
+				for depth := 0; depth < 3; depth++ {
+					obj := core.ObjOf(info, e)
+					if obj == nil {
+						return false
+					}
+					if obj == refObj {
+						// the definition that reaches here must be this allocation
+						ds := reachingDefs(g, at, refObj)
+						return len(ds) == 1 && ds[0] == refDef
+					}
+					id, isID := ast.Unparen(e).(*ast.Ident)
+					if !isID {
+						return false
+					}
+					cs := valueCases(g, at, id, 1)
+					if len(cs) != 1 || cs[0].V == nil || cs[0].Expr == ast.Expr(id) {
+						return false
+					}
+					e, at = cs[0].Expr, cs[0].V
+				}
+				return false
+			}
+			var sets []*core.V
+			for _, v := range g.Vs {
+				as, ok := v.AST.(*ast.AssignStmt)
+				if !ok || len(as.Lhs) != len(as.Rhs) {
+					continue
+				}
+				for i, l := range as.Lhs {
+					isParent := false
+					switch x := ast.Unparen(l).(type) {
+					case *ast.SelectorExpr:
+						isParent = x.Sel.Name == "Parent"
+					case *ast.IndexExpr:
+						k, isK := core.StringConst(info, x.Index)
+						isParent = isK && k == "Parent"
+					}
+					if isParent && isRef(v, as.Rhs[i]) {
+						sets = append(sets, v)
+						o.At(fn.Site(as, "sets /Parent"))
+					}
+				}
+			}
+			// returns that hand out the wrapper: a dictInfo literal whose ref is the allocated reference
+			for _, r := range g.Returns() {
+				rs, ok := r.AST.(*ast.ReturnStmt)
+				if !ok || len(rs.Results) != 1 {
+					continue
+				}
+				toExit := false
+				for _, e := range r.Succs {
+					if e.To == g.Exit {
+						toExit = true
+					}
+				}
+				if !toExit {
+					continue
+				}
+				uses := false
+				ast.Inspect(rs.Results[0], func(m ast.Node) bool {
+					if cl, isCL := m.(*ast.CompositeLit); isCL {
+						if f := literalField(info, cl, "ref"); f != nil && isRef(r, f) {
+							uses = true
+						}
+					}
+					return true
+				})
+				if !uses {
+					continue
+				}
+				n++
+				o.At(fn.Site(rs, "returns the wrapper"))
+				if g.ReachFrom(refDef, false, core.AvoidVs(sets...))[r] {
+					o.FailAt(fn.Site(rs, ""), "the wrapper node allocated at %s is returned on a path that never sets the wrapped page's /Parent to it: the page is written without /Parent (or with a stale one), and /Parent no longer points to the node that lists the page", c.Prog.Pos(refDef.AST.Pos()))
+				}
+			}
+		}
+		o.Shape(n >= 1, "no return of a wrapper node built on an allocated reference was found")
+		o.Count(n)
+	})
 	c.Check("C16-R2", pk+".(*Writer).mergeNodes/splice", "the merged node replaces exactly the children it lists, keeping everything else in order", func(o *core.Ob) {
 		fn := c.Prog.Func(pk, "(*Writer).mergeNodes")
 		src := c.Prog.Src(fn.Decl.Body)
